@@ -1,4 +1,5 @@
 import BddVerif.Props.C10
+import BddVerif.Lemmas.AlgoEqIterDriver
 #print axioms B.Props.C10.conjFn_iff
 #print axioms B.Props.C10.disjFn_iff
 #print axioms B.Props.C10.dnfFn_iff
@@ -17,3 +18,9 @@ import BddVerif.Props.C10
 #print axioms B.Props.C10.opt_dnf_roundtrip
 #print axioms B.Props.C10.opt_dnf_roundtrip_exactCard
 #print axioms B.Props.C10.mk_cnf_panics_iff
+#print axioms B.AlgoEqIt.to_dnf_eq_model
+#print axioms B.AlgoEqIt.to_dnf_sem_translated
+#print axioms B.AlgoEqIt.to_cnf_eq_model
+#print axioms B.AlgoEqIt.to_cnf_sem_translated
+#print axioms B.AlgoEqIt.to_cnf_translated_driver
+#print axioms B.AlgoEqIt.to_cnf_ok_or_fuel
